@@ -147,6 +147,12 @@ def _uf_calls(env):
     return sum(len(v.calls) for v in env.values() if isinstance(v, sym.UF))
 
 
+def _reraise(o):
+    if o[0] == "exc":
+        raise o[1]
+    return o[1]
+
+
 def check_skeleton(desc, fam, tier, twin=None):
     sym.set_family(fam)
     text = skel.show(desc) + f" [{fam}]"
@@ -234,6 +240,23 @@ def check_skeleton(desc, fam, tier, twin=None):
                     detail=f"{name}({expr!r}) with {H.env_text(cenv)}: {txt}",
                     replay={"skeleton": text, "expr_repr": repr(expr), "evaluator": name,
                             "env": H.env_text(cenv), "result": txt}))
+            # model-fidelity net: re-run the real code on plain Python values for witnesses of this path
+            if not twin and res.status != "violation":
+                exact = "div" in tg or "pow" in tg or fam == "real"
+                for model in H.witness_models(pre, path.pc, env, tier):
+                    cenv = H.concretise_env(env, model, exact=exact)
+                    corc = H.outcome(lambda: refsem.den(expr, cenv))
+                    for name, ev in evaluators:
+                        res.witness_runs = getattr(res, "witness_runs", 0) + 1
+                        differs, txt = H.replay_differs(lambda: ev(expr, cenv), lambda: _reraise(corc), truthy)
+                        if differs:
+                            res.status = "violation"
+                            res.violations.append(Violation(
+                                sig=f"{text} :: {name} :: {'exception' if 'raises' in txt else 'value'}",
+                                kind=f"eval-{desc[0]}",
+                                detail=f"(path witness) {name}({expr!r}) with {H.env_text(cenv)}: {txt}",
+                                replay={"skeleton": text, "expr_repr": repr(expr), "evaluator": name,
+                                        "env": H.env_text(cenv), "result": txt}))
     except sym.Unsupported as e:
         res.status = "refused"
         res.note = str(e)
